@@ -708,17 +708,43 @@ func (w *World) posOfVar(v *types.Var) string {
 func h5(w *World, r *Report) {
 	fn := needFn(r, "H-5", w, fref{pkgCrypto, "", "loadSFilePV"})
 	if fn != nil && len(fn.Params) == 4 {
-		um := w.callsTo(fn, fref{"github.com/tendermint/tendermint/libs/json", "", "Unmarshal"})
-		// the unmarshal into the state: its second argument is an Alloc of SFilePVLastSignState
-		var stateAlloc *ssa.Alloc
-		var umCall ssa.CallInstruction
-		for _, c := range um {
-			a := c.Common().Args
-			if len(a) == 2 {
-				if al, ok := stripConv(a[1]).(*ssa.Alloc); ok && strings.HasSuffix(typeStr(deref(al.Type())), "SFilePVLastSignState") {
-					stateAlloc, umCall = al, c
+		// the unmarshal into the state: its second argument is an Alloc of
+		// SFilePVLastSignState — in loadSFilePV itself or in a helper it calls
+		findUm := func(f *ssa.Function) (*ssa.Alloc, ssa.CallInstruction) {
+			for _, c := range w.callsTo(f, fref{"github.com/tendermint/tendermint/libs/json", "", "Unmarshal"}) {
+				a := c.Common().Args
+				if len(a) == 2 {
+					if al, ok := stripConv(a[1]).(*ssa.Alloc); ok && strings.HasSuffix(typeStr(deref(al.Type())), "SFilePVLastSignState") {
+						return al, c
+					}
 				}
 			}
+			return nil, nil
+		}
+		host := fn
+		var hostCall ssa.CallInstruction
+		stateAlloc, umCall := findUm(fn)
+		if stateAlloc == nil {
+			for _, c := range CallsIn(fn) {
+				cal := c.Common().StaticCallee()
+				if cal == nil || !w.InModule(cal) || cal.Blocks == nil || len(cal.Params) != len(c.Common().Args) {
+					continue
+				}
+				if al, uc := findUm(cal); al != nil {
+					host, hostCall, stateAlloc, umCall = cal, c, al, uc
+				}
+			}
+		}
+		// outerParam: the parameter of loadSFilePV that a value of the host stands for (-1 if none)
+		outerParam := func(v ssa.Value) int {
+			if host != fn {
+				j := paramIndexIn(host, v)
+				if j < 0 {
+					return -1
+				}
+				v = hostCall.Common().Args[j]
+			}
+			return paramIndexIn(fn, v)
 		}
 		if stateAlloc == nil {
 			r.Violate("H-5", "loadSFilePV:unmarshal-state", "the loader never unmarshals the state file into the last-sign state", nil, fnSite(w, fn))
@@ -726,18 +752,35 @@ func h5(w *World, r *Report) {
 			// read from stateFilePath (p1)
 			rd := false
 			if ex, ok := stripConv(umCall.Common().Args[0]).(*ssa.Extract); ok {
-				if c, ok := ex.Tuple.(*ssa.Call); ok && w.callIs(c.Common(), fref{"os", "", "ReadFile"}) && c.Common().Args[0] == ssa.Value(fn.Params[1]) {
+				if c, ok := ex.Tuple.(*ssa.Call); ok && w.callIs(c.Common(), fref{"os", "", "ReadFile"}) && outerParam(c.Common().Args[0]) == 1 {
 					rd = true
 				}
 			}
 			r.Check(rd, "H-5", "loadSFilePV:reads-state-file", "the state is unmarshalled from os.ReadFile(stateFilePath)", "the state is not read from stateFilePath", site(w, umCall))
-			e, _ := w.underCond(umCall.Block(), func(c ssa.Value) bool { return c == ssa.Value(fn.Params[2]) })
+			e, _ := w.underCond(umCall.Block(), func(c ssa.Value) bool { return outerParam(c) == 2 })
 			r.Check(e == 1, "H-5", "loadSFilePV:under-loadState", "state loading is controlled by loadState=true", "state loading is not on the loadState=true branch", site(w, umCall))
-			// returned struct's LastSignState is a load of stateAlloc
+			// the returned struct's LastSignState is the loaded state
 			retOK := false
+			loaded := func(v ssa.Value) bool {
+				u, ok := v.(*ssa.UnOp)
+				return ok && u.X == ssa.Value(stateAlloc)
+			}
+			hostReturnsIt := host != fn
+			if host != fn {
+				for _, b := range host.Blocks {
+					if ret, isR := lastInstr(b).(*ssa.Return); isR && b != host.Recover {
+						if len(ret.Results) != 1 || !loaded(ret.Results[0]) {
+							hostReturnsIt = false
+						}
+					}
+				}
+			}
 			for _, fs := range w.fieldStores(fn) {
 				if fs.Field.Name() == "LastSignState" {
-					if u, ok := fs.Val.(*ssa.UnOp); ok && u.X == stateAlloc {
+					if host == fn && loaded(fs.Val) {
+						retOK = true
+					}
+					if host != fn && hostReturnsIt && fs.Val == callValue(hostCall) {
 						retOK = true
 					}
 				}
@@ -745,6 +788,9 @@ func h5(w *World, r *Report) {
 			r.Check(retOK, "H-5", "loadSFilePV:returns-loaded-state", "the returned SFilePV carries the loaded state", "the returned SFilePV does not carry the state that was loaded", fnSite(w, fn))
 			// read/unmarshal errors exit
 			exits := len(w.callsTo(fn, fref{"github.com/tendermint/tendermint/libs/os", "", "Exit"}))
+			if host != fn {
+				exits += len(w.callsTo(host, fref{"github.com/tendermint/tendermint/libs/os", "", "Exit"}))
+			}
 			r.Check(exits >= 4, "H-5", "loadSFilePV:errors-exit", fmt.Sprintf("%d error exits (key read, key parse, unlock, state read, state parse)", exits), "load errors no longer stop the process (signer could start with an empty last-sign state)", fnSite(w, fn))
 		}
 	} else if fn != nil {
